@@ -231,10 +231,15 @@ def oracle(case, obs):
             if old is None or old != want:
                 if val != want:
                     fails.append(("C17", "recorded_is_value_at_comparison_time", f"site {i}: compared {want!r}, written {val!r}"))
+                    if old is None and "create" in approved:
+                        fails.append(("C01", "created_value_holds", f"site {i}: empty snapshot compared with {want!r} (as it was at that moment), written {val!r}"))
         elif role in ("ge", "le"):
             ext = max(seen) if role == "ge" else min(seen)
             if val is not None and val != old and val != ext:
                 fails.append(("C17", "recorded_is_value_at_comparison_time", f"site {i}: observed {seen!r}, written {val!r}"))
+                if old is None and "create" in approved:
+                    fails.append(("C01", "created_value_holds", f"site {i}: empty snapshot used with {'<=' if role == 'ge' else '>='}, values as they were compared {seen!r}, "
+                                  f"written {val!r}: not a bound for all of them"))
         else:
             if val is not None:
                 for e in val:
